@@ -28,7 +28,9 @@ pub struct Universe {
 
 pub fn cred_desc(name: &str, variant: u64) -> CredDesc {
     // variant selects short-term / long-term credentials; the key *identity* is the name
-    match variant % 3 {
+    match variant % 4 {
+        // passwords longer than the HMAC block size that share their first 64 bytes
+        3 => CredDesc { long: false, user: String::new(), realm: String::new(), password: format!("{}{}", "0123456789abcdef".repeat(4), name) },
         0 => CredDesc { long: false, user: String::new(), realm: String::new(), password: format!("pässword-{name}") },
         1 => CredDesc { long: true, user: format!("user:{name}"), realm: "realm.example".into(), password: format!("pw {name}") },
         // same account (user, realm), the keys differ only in the password
@@ -68,11 +70,16 @@ impl Universe {
             "192.0.2.200:1".parse().unwrap(),
             "[::1]:65535".parse().unwrap(),
             "10.0.0.1:3479".parse().unwrap(), // same ip, other port
-            "198.51.100.3:40000".parse().unwrap(),
+            "[::ffff:198.51.100.3]:40000".parse().unwrap(), // IPv4-mapped IPv6
         ];
         let off = (seed % 6) as usize;
         for i in 0..6 {
             addrs.insert(format!("a{}", i + 1), cands[(i + off) % 6]);
+        }
+        // a larger population of peers for histories that need many distinct addresses
+        for i in 7..=48u16 {
+            let a: SocketAddr = if i % 2 == 0 { format!("203.0.113.{}:{}", i, 1000 + i).parse().unwrap() } else { format!("[2001:db8:1::{:x}]:{}", i, 2000 + i).parse().unwrap() };
+            addrs.insert(format!("a{}", i), a);
         }
         let mut keys = BTreeMap::new();
         let mut descs = BTreeMap::new();
@@ -382,7 +389,9 @@ impl<'u> Run<'u> {
                     "request" => MessageClass::Request,
                     _ => MessageClass::Indication,
                 };
-                let mut b = Message::builder(MessageType::from_class_method(mcls, BINDING), tid);
+                // (methods with bits in the first header byte as well: 0x0fff when the requests use it)
+                let rmethod = if self.seed % 3 == 0 { 0x0fff } else { BINDING };
+                let mut b = Message::builder(MessageType::from_class_method(mcls, rmethod), tid);
                 let x = XorMappedAddress::new(from, tid);
                 let ec = ErrorCode::new(401, "nope").unwrap();
                 if mcls == MessageClass::Error {
@@ -618,7 +627,16 @@ pub fn main_agent(args: &[String]) {
         }
         let script: Value = serde_json::from_str(&line).expect("script json");
         let threaded = script["thread"].as_bool().unwrap_or(false);
-        let events = if threaded {
+        let with_sub = script["subscriber"].as_bool().unwrap_or(false);
+        let events = if with_sub {
+            // the same script under a TRACE-level tracing subscriber (ambient state a sans-IO agent must not depend on)
+            let subscriber = tracing_subscriber::fmt().with_max_level(tracing::Level::TRACE).with_writer(std::io::sink).finish();
+            let dispatch = tracing::Dispatch::new(subscriber);
+            tracing::dispatcher::with_default(&dispatch, || {
+                tracing::callsite::rebuild_interest_cache();
+                run_script(&script)
+            })
+        } else if threaded {
             let sc = script.clone();
             std::thread::spawn(move || run_script(&sc)).join().unwrap_or_else(|_| vec![json!({"ret": {"k": "panic", "msg": "thread"}})])
         } else {
